@@ -547,6 +547,10 @@ Definition judge_formula (x : sx) : sx :=
           else v_malformed
       | None => v_malformed
       end
+  (* the harness produced no observation at all for this case (killed after the stall limit, or the process died):
+     nothing can be said about grouping *)
+  | Lx [Lx [Ax "c02"; _]; Lx (Ax "hang" :: _)] => v_adv "no-observation"
+  | Lx [Lx [Ax "c02"; _]; Lx (Ax "abort" :: _)] => v_adv "no-observation"
   | _ => v_malformed
   end.
 
